@@ -16,7 +16,7 @@ import warnings
 
 import torch
 
-from xsim.probe import SIM, InjectedFault, InjectedAbort
+from xsim.probe import SIM, InjectedFault, InjectedAbort, FaultyLinalgSolve
 from xsim import actors as AC
 from xsim.snapshot import Snapshot, compare, idents
 
@@ -123,6 +123,11 @@ def draw_functional(cs, sc):
             spec["bck"] = cs.choice([None, "cg", "exactsolve"], "bck")
             # a second user operator M (A X - M X E = B): two operators substituted in one call
             spec["M"] = bool(spec["E"]) and cs.bool("withM", 1, 2)
+            # an internal failure the library may absorb: the k-th dense solve of the call fails like LAPACK does
+            # for a singular system (the call then completes through a rescue path, or fails - either way the
+            # caller's tensors must be untouched)
+            spec["linalg_fault"] = cs.randint(1, 2, "linalg_k") if (
+                spec["method"] in ("exactsolve", "custom_exactsolve") and cs.bool("linalg_fault", 1, 3)) else 0
         elif F == "symeig":
             spec["method"] = cs.choice(["exacteig", "custom_exacteig", "davidson"], "m")
             spec["neig"] = cs.randint(1, 2, "neig")
@@ -236,6 +241,8 @@ def build_env(sc):
             herm = kind is not AC.LOWithRmv
             A = kind(W, b, hermitian=herm)
             env.leaf_extra = [W, b]
+            if kind is AC.LODense and A.mat.requires_grad:
+                env.leaf_extra.append(A.mat)
             env.actors.append(A)
             env.linop = A
             if sc["composite"] in (1, 3):
@@ -462,7 +469,14 @@ def run_functional(env, spec):
         E = torch.tensor([0.1, -0.2], dtype=AC.DT) if spec["E"] else None
         bck = {"method": spec["bck"]} if spec["bck"] else {}
         M = env.Mop if spec.get("M") else None
-        x = xl.solve(A, B, E=E, M=M, method=spec["method"], bck_options=bck, **kn)
+        if spec.get("linalg_fault"):
+            with FaultyLinalgSolve(spec["linalg_fault"]) as fl:
+                try:
+                    x = xl.solve(A, B, E=E, M=M, method=spec["method"], bck_options=bck, **kn)
+                finally:
+                    SIM.count("fault.linalg_error", fl.fired)
+        else:
+            x = xl.solve(A, B, E=E, M=M, method=spec["method"], bck_options=bck, **kn)
         return (x * x).sum()
     if F == "symeig":
         ne = min(spec["neig"], n)
